@@ -164,6 +164,13 @@ class ByteHooks(Hooks):
             return False
         return None
 
+    def order(self, o, op, a, b):
+        if isinstance(a, (SBytes, RepBytes)) or isinstance(b, (SBytes, RepBytes)):
+            if isinstance(a, (bytes, SBytes, RepBytes)) and isinstance(b, (bytes, SBytes, RepBytes)):
+                return o.order(op, tuple(as_list(o, a)), tuple(as_list(o, b)))      # lexicographic, like bytes
+            raise o.pyvc.Raised(TypeError("'<' not supported between instances of 'bytes' and %r" % type(b).__name__))
+        return None
+
     def contains(self, o, cont, x):
         if isinstance(cont, (SBytes, SArray)) or (isinstance(cont, bytes) and isinstance(x, SBytes)):
             hay = as_list(o, cont)
